@@ -414,10 +414,23 @@ func checkC14(w *World, r *Report) {
 			} else {
 				// PopN: delta == -(length of the returned slice) and that length is min(n, len)
 				var ms *ssa.MakeSlice
-				for _, x := range g.returns {
-					if m, ok := g.ins[x].(*ssa.Return).Results[0].(*ssa.MakeSlice); ok {
+				alias := ""
+				for _, rc := range g.retCases() {
+					if m, ok := rc.res[0].(*ssa.MakeSlice); ok {
 						ms = m
+						continue
 					}
+					if k, isK := rc.res[0].(*ssa.Const); isK && k.IsNil() {
+						continue
+					}
+					// every batch handed out is a slice made by this call: never (a part of) the ring's own storage
+					alias = w.pathOf(rc.res[0])
+				}
+				if alias != "" {
+					r.Fail("C14.R3", name+":fresh-batch", "PopN hands out a slice made by the call itself", site,
+						"PopN returns "+alias+": the batch aliases slots that are already released, a later Push that laps the ring overwrites elements the caller still holds")
+				} else {
+					r.OK("C14.R3", name+":fresh-batch", "PopN hands out a slice made by the call itself", site)
 				}
 				delta := op.call.Call.Args[1]
 				okA = false
